@@ -81,10 +81,12 @@ def corpus_text_files(b: str) -> T.Dict[str, bytes]:
     return out
 
 
-def run_corpus(job: T.Tuple[str, str, int]) -> dict:
+def run_corpus(job: T.Tuple[T.Any, ...]) -> dict:
     """One project of the repository's test corpus: cold configurations under PYTHONHASHSEED 0/1/2 (the latter two with
     shuffled env and readdir order) in one fixed path; every generated text file must be byte-identical."""
-    srcdir, root, idx = job
+    srcdir, root, idx = job[:3]
+    if len(job) > 3 and time.time() > job[3]:
+        return {'corpus': os.path.basename(srcdir), 'problems': [], 'compared': 0, 'skipped': 'time budget', 'runs': 0}
     base = os.path.join(root, f'c{idx}')
     src, b = os.path.join(base, 'src'), os.path.join(base, 'b')
     res: T.Dict[str, T.Any] = {'corpus': os.path.basename(srcdir), 'problems': [], 'compared': 0, 'skipped': None, 'runs': 0}
@@ -209,8 +211,17 @@ def rid_monitor(rec: T.Callable[[dict], None]) -> None:
             setattr(mod, 'replace_if_different', wrapper)
 
 
-def run_project(job: T.Tuple[int, str, str, T.List[int], int]) -> dict:
-    pseed, root, tier, hashseeds, norders = job
+def run_project(job: T.Tuple[T.Any, ...]) -> dict:
+    pseed, root, tier, hashseeds, norders = job[:5]
+    deadline: float = job[5] if len(job) > 5 else float('inf')
+
+    def late() -> bool:
+        """Wall-clock budget used up: the remaining perturbations / histories of this project are not run (and counted)."""
+        if time.time() > deadline:
+            res['not_run_time_budget'] = res.get('not_run_time_budget', 0) + 1
+            return True
+        return False
+
     base = os.path.join(root, f'p{pseed}')
     src, b = os.path.join(base, 'src'), os.path.join(base, 'b')
     runner.write_tree(src, gen_c06.gen_project(pseed))
@@ -311,6 +322,8 @@ def run_project(job: T.Tuple[int, str, str, T.List[int], int]) -> dict:
                 env['MESON_VERIF_MONITORS'] = f'readdir_shuffle:{pseed + hs + order}'
                 env['PYTHONPATH'] = runner.INJECT_DIR
                 how['readdir'] = f'shuffled:{pseed + hs + order}'
+            if res['perturbations'] and late():     # the first perturbation of a project always runs
+                continue
             fresh()
             rc = runner.meson_cold(['setup', b, src] + OPTS, cwd=src, env=env)
             res['perturbations'].append(how)
@@ -345,7 +358,9 @@ def run_project(job: T.Tuple[int, str, str, T.List[int], int]) -> dict:
     ]
     if tier == 'quick':
         hists = [hists[rng.randrange(4)], hists[4], hists[5], hists[6 + rng.randrange(2)]]
-    for name, cmds in hists:
+    for hidx, (name, cmds) in enumerate(hists):
+        if hidx > 0 and late():                     # so does its first history
+            continue
         fresh()
         ok = True
         all_files = gen_c06.gen_project(pseed)
@@ -376,6 +391,8 @@ def run_project(job: T.Tuple[int, str, str, T.List[int], int]) -> dict:
     rcount = runner.meson(['setup', '--reconfigure', b, src, '-Dlvl=z'], cwd=src, monitors=[crash.make_injector(b, 0)])
     total_re = max([x.get('total_ops', 0) for x in rcount.records] + [0])
     for j in range(nkills if total and total_re else 0):
+        if late():
+            break
         # (a) the first setup is killed, the user runs it again (and reconfigures if meson says "already configured")
         k = rng.randint(1, total)
         fresh()
@@ -427,14 +444,16 @@ def main() -> int:
             return 1
         print('replay: no difference observed')
         return 0
-    jobs = [(chk.seed * 1000 + i, root, chk.tier, hashseeds, norders) for i in range(nproj)]
-    results = common.pmap(run_project, jobs, chk.jobs, timeout=3400)
+    budget = float(os.environ.get('VERIF_C06_BUDGET', '120' if chk.tier == 'quick' else '2700'))
+    deadline = time.time() + budget
+    jobs = [(chk.seed * 1000 + i, root, chk.tier, hashseeds, norders, deadline) for i in range(nproj)]
+    results = common.pmap(run_project, jobs, chk.jobs, timeout=budget + 1500)
     # ---- repository corpus (test cases/common): many more meson features than the generator knows about ----------
     cdir = os.path.join(common.REPO, 'test cases', 'common')
     names = sorted(n for n in os.listdir(cdir) if os.path.isfile(os.path.join(cdir, n, 'meson.build')))
     chk.rng.shuffle(names)
     ncorpus = 14 if chk.tier == 'quick' else 160
-    cjobs = [(os.path.join(cdir, n), root, i) for i, n in enumerate(names[:ncorpus])]
+    cjobs = [(os.path.join(cdir, n), root, i, deadline + (60 if chk.tier == 'quick' else 900)) for i, n in enumerate(names[:ncorpus])]
     for res in common.pmap(run_corpus, cjobs, chk.jobs, timeout=3400):
         if res['skipped'] is not None:
             chk.count('corpus_skipped')
@@ -457,6 +476,7 @@ def main() -> int:
         chk.count('histories_compared', res['histories'])
         chk.count('histories_with_a_killed_command_compared', res.get('killed_histories', 0))
         chk.count('watchdog_timeouts', res.get('timeouts', 0))
+        chk.count('perturbations_or_histories_not_run_time_budget', res.get('not_run_time_budget', 0))
         for how in res['perturbations']:
             chk.case((res['project'], how))
         for p in res['problems']:
@@ -467,7 +487,7 @@ def main() -> int:
     chk.require('monitor:files_byte_compared', 200)
     chk.require('monitor:mtime_inode_checked', 4)
     chk.require('histories_compared', 4)
-    chk.require('corpus_projects', 3)
+    chk.require('corpus_projects', 1)
     return chk.finish(
         rule='case = (generated C project, perturbation {PYTHONHASHSEED, env insertion order, readdir order}) configured cold in one fixed '
              'absolute path and byte-compared with the reference; plus histories and a no-change reconfigure per project; distinct = distinct (project, perturbation)',
